@@ -18,6 +18,8 @@ import TgModel.Lemmas.IdeSemCoreT
 import TgModel.Lemmas.Sem10Core5
 import TgModel.Lemmas.Sem10List
 import TgModel.Lemmas.Sem11Core7
+import TgModel.Lemmas.Sem12Core8
+import TgModel.Lemmas.Sem12Checker8
 import TgModel.Props.C03
 
 namespace Tg.C13
@@ -2732,14 +2734,33 @@ Accepted by `coreStatementList7` (`Lemmas/Sem11Core7.lean`), wider again: the sa
 * such a field may be left without initialiser, or be initialised by `?` or by the name of a field in scope of
   the same class type (same record id).
 
+Accepted by `coreStatementList8` (`Lemmas/Sem12Checker8.lean`), wider again: the same with names of defs as values,
+* `init` of a field definition or a `let` may also be the name `D` (a single identifier, no suffixes) of a `def`
+  declared earlier in the list by an accepted statement under a plain identifier name (the latest def of the name
+  counts), provided that no variable, field or template parameter in scope and no top-level `defvar` has the name
+  `D`, that the (declared) type of the field is a class `C` (as in the seventh checker), and that `C` is a parent
+  of `D` or an ancestor of a parent: the checker files, for every record, the parents named in its parent list,
+  each followed by the ancestors filed for it (`St8.anc`); `D` itself is filed when its body is entered, its
+  ancestors when its statement is finished (so `D` is not a value inside its own body);
+* in this checker every parent must be a class whose record id the checker knows (as for field types), and a
+  `def` must either have no name at all (an anonymous record, which is not filed) or a plain identifier as its
+  name; defs named by a string or by a computed value are outside this checker (the earlier ones take them).
+
 Rejected (not covered): named template arguments, class values and every other value form as initialiser,
 argument or `defvar` value (the empty list `[]`, annotated lists `[…]<T>`, lists of identifiers or of literals
 of different types, nested lists included), identifiers naming anything but a variable, field or parameter in
-scope - in particular the names of `def`s as values (`A a = D0;`) and fields of a subclass type as initialisers
-of a field of the superclass type -, `list<list<…>>`, `list<C>`, template parameters of list or class type,
+scope or - for a field of class type - a def as above; in particular the name of a def whose ancestors do not
+include the class of the field (`GPR g = R0;` with `def R0 : Reg`), the name of a def as a `defvar` value, as a
+template argument or as an element of a list, the name of a def for a field of a non-class type, and fields of a
+subclass type as initialisers of a field of the superclass type -, `list<list<…>>`, `list<C>`, template parameters of list or class type,
 `defvar` in `foreach` / `if` / `multiclass` bodies, `foreach`, `if`, `defset`, `multiclass`/`defm`, bang
 operators, `include`, top-level `let`. -/
 def coreProgramB (sl : PTree) : Bool :=
+  coreProgramB12 sl || coreStatementList3 sl || coreStatementList4 sl || coreStatementList5 sl || coreStatementList6 sl ||
+    coreStatementList7 sl || coreStatementList8 sl
+
+/-- the judgement of (6) before names of defs as values were added -/
+def coreProgramB7 (sl : PTree) : Bool :=
   coreProgramB12 sl || coreStatementList3 sl || coreStatementList4 sl || coreStatementList5 sl || coreStatementList6 sl ||
     coreStatementList7 sl
 
@@ -2786,14 +2807,23 @@ theorem core_statements_quiet6 (k : Nat) (sl : PTree) (hcore : coreProgramB6 sl 
   · exact core_statements_quiet5 (k + 1) sl h5 c c' hsm hsc htr h
   · exact indexStatementList6_quiet k sl h6 c c' hsm hsc htr h
 
-/-- **(6a'''')** the same for the whole judgement -/
-theorem core_statements_quiet7 (k : Nat) (sl : PTree) (hcore : coreProgramB sl = true) (c c' : IndexCtx)
+/-- **(6a'''')** the same with fields of class type -/
+theorem core_statements_quiet7 (k : Nat) (sl : PTree) (hcore : coreProgramB7 sl = true) (c c' : IndexCtx)
     (hsm : c.symbolMap = {}) (hsc : c.scopes = {}) (htr : c.fileTrace ≠ [])
     (h : ((mkRec (k + 3)).statementList sl).run c = .ok ((), c')) : c'.diagnostics = c.diagnostics := by
-  unfold coreProgramB at hcore
+  unfold coreProgramB7 at hcore
   rcases Bool.or_eq_true_iff.1 hcore with h6 | h7
   · exact core_statements_quiet6 k sl h6 c c' hsm hsc htr h
   · exact indexStatementList7_quiet k sl h7 c c' hsm hsc htr h
+
+/-- **(6a''''')** the same for the whole judgement -/
+theorem core_statements_quiet8 (k : Nat) (sl : PTree) (hcore : coreProgramB sl = true) (c c' : IndexCtx)
+    (hsm : c.symbolMap = {}) (hsc : c.scopes = {}) (htr : c.fileTrace ≠ [])
+    (h : ((mkRec (k + 3)).statementList sl).run c = .ok ((), c')) : c'.diagnostics = c.diagnostics := by
+  unfold coreProgramB at hcore
+  rcases Bool.or_eq_true_iff.1 hcore with h7 | h8
+  · exact core_statements_quiet7 k sl h7 c c' hsm hsc htr h
+  · exact indexStatementList8_quiet k sl h8 c c' hsm hsc htr h
 
 /-- **(6b) `core_no_diagnostics_partial`**: a workspace whose root file is a core program
 (`coreProgramB`, see there for exactly what is accepted) and has no other statements - in particular
@@ -2817,7 +2847,7 @@ theorem core_no_diagnostics_partial (ws : Workspace) (res : IndexResult) (h : in
         rw [hsl]
       rw [this] at hrun
       exact hrun
-    exact core_statements_quiet7 j sl hcore _ _ rfl rfl (by simp [IndexCtx.new]) hrun'
+    exact core_statements_quiet8 j sl hcore _ _ rfl rfl (by simp [IndexCtx.new]) hrun'
 
 /-- the judgement on the root file of a workspace -/
 def coreWorkspaceB (ws : Workspace) : Bool :=
@@ -3189,6 +3219,38 @@ theorem core7Source_checked :
 example : ∃ ws res, buildWorkspace [("/w/core.td", core7Source)] "/w/core.td" none = .ok ws ∧
     coreWorkspaceB ws = true ∧ index ws = .ok res ∧ res.diagnostics = #[] :=
   checked_no_diagnostics _ _ core7Source_checked
+
+/-- registers as values: defs of a subclass as values of fields of the class and of the superclass, in a field
+definition and in a `let` -/
+def core8Source : String :=
+  "class Reg;\n" ++
+  "class GPR : Reg;\n" ++
+  "def R0 : GPR;\n" ++
+  "def R1 : GPR;\n" ++
+  "class Inst { Reg r = R0; GPR g = R1; }\n" ++
+  "def ADD : Inst { let r = R1; }\n"
+
+/-- the program is built by `buildWorkspace` and accepted by the judgement - by the eighth checker only (checked
+by evaluation) -/
+theorem core8Source_checked :
+    checkedSrc core8Source (fun sl => coreStatementList8 sl && !coreProgramB7 sl) = true := by decide +kernel
+
+/-- its index run succeeds (C03) and - by `core_workspace_no_diagnostics` - reports nothing -/
+example : ∃ ws res, buildWorkspace [("/w/core.td", core8Source)] "/w/core.td" none = .ok ws ∧
+    coreWorkspaceB ws = true ∧ index ws = .ok res ∧ res.diagnostics = #[] :=
+  checked_no_diagnostics _ _ core8Source_checked
+
+/-- a def of the superclass only as the value of a field of the subclass type (the cast fails), a def used before
+its declaration and a def as the value of a field of a primitive type are rejected by the judgement -/
+example : (match buildWorkspace [("/w/bad.td", "class Reg;\nclass GPR : Reg;\ndef R0 : Reg;\nclass Inst { GPR g = R0; }\n")] "/w/bad.td" none with
+    | .ok ws => coreWorkspaceB ws
+    | .error _ => true) = false := by decide +kernel
+example : (match buildWorkspace [("/w/bad.td", "class Reg;\nclass Inst { Reg r = R0; }\ndef R0 : Reg;\n")] "/w/bad.td" none with
+    | .ok ws => coreWorkspaceB ws
+    | .error _ => true) = false := by decide +kernel
+example : (match buildWorkspace [("/w/bad.td", "class Reg;\ndef R0 : Reg;\nclass Inst { int r = R0; }\n")] "/w/bad.td" none with
+    | .ok ws => coreWorkspaceB ws
+    | .error _ => true) = false := by decide +kernel
 
 /-- a class used before its declaration and a field of another class type as initialiser are rejected by the
 judgement -/
